@@ -210,3 +210,19 @@ func init() {
 			Quick: s.q, Thorough: s.t, Desc: s.desc, Run: s.run, Check: exclusiveCheck})
 	}
 }
+
+// X-noresolve-start: the execution that does not resolve is run by a Start-style call's
+// goroutine while a blocking call is coalesced into it.
+func xNoResolveStart() {
+	x := &xEnv{e: new(Exclusive)}
+	x.wg.Add(2)
+	go x.start(1, "k", "w1", 5*time.Millisecond)
+	go x.noResolve(2, "k", "n2")
+	x.finish("k")
+}
+
+func init() {
+	vrt.Register(&vrt.Scenario{Name: "X-noresolve-start", Props: []string{"C09:overlap,key-", "C10", "C11:race", "C12:goroutine-leak"},
+		Quick: 2, Thorough: 3, Desc: "StartAfter(5ms) and a blocking call whose work function never resolves, coalesced on one key",
+		Run: xNoResolveStart, Check: exclusiveCheck})
+}
